@@ -9,10 +9,10 @@ EXPLANATION = ('Kernel of C14: in do_source_file() the md5 file is written only 
 K = ['K1 backup_copy_file: md5 of the data equals the recorded md5 (32 hex digits, case-insensitive) => EX_OK without touching the backup; otherwise the backup receives exactly data (pointer and length handed to fwrite, result checked) or the process exits non-zero',
      'K2 backup_create_md5_file: whatever is written to the md5 file is the digest of the WHOLE file - every byte read and fed to the digest in order; a read error never leaves the digest of a prefix behind',
      'K3 md5 recorded after the target is final, and always recorded on a completed in-place run with backups']
-G = ['the md5 file, if present, is foreign or well-formed (32 hex digits + non-hex): precondition of backup_copy_file_contract (latent hazards outside it: DESIGN 9.5); MD5::Calc is an arbitrary fixed digest',
+G = ['MD5::Calc is an arbitrary fixed digest (the first line of the md5 file, if present, is arbitrary text)',
      'MD5::Update / MD5::Final compute a digest of the bytes fed to them in order (the MD5 implementation itself, src/md5.cpp, is not verified)',
      'histories: the one-step invariant "md5 slot == md5(file) => backup slot holds the pre-uncrustify content" is argued in DESIGN.md, not machine checked; crash points not covered']
 
 sys.path.insert(0, os.path.join(os.path.dirname(os.path.abspath(__file__)), '..', '..', 'tools'))
 import replay_lib  # noqa: E402
-REPLAY = replay_lib.make_replay(replay_lib.scenario_md5_after_rename, replay_lib.scenario_md5_read_fault)
+REPLAY = replay_lib.make_replay(replay_lib.scenario_md5_after_rename, replay_lib.scenario_md5_read_fault, replay_lib.scenario_corrupt_md5_file)
